@@ -187,7 +187,7 @@ PROPS = {
         trusted_base=["pkg/packet/tracer.go transcribed by hand into theories/Node/Tracer.v; packet.Join as in theories/Packet/Writer.v", COMMON_MODEL],
     ),
     "C03": dict(
-        level_text="Coq theorems about one writer, its readers, their closes (with the delayed drop notices of Reader.Close) and the requester that takes responses from Writer.Receive() at arbitrary points: once the writer is closed every write it ever accepted has exactly one response queued, in write order (joined answer or dropped-packet error); whatever the interleaving, what the requester has taken is a prefix of that queue - nothing lost, duplicated or reordered, whether or not it was already waiting when the writer closed (the repaired defect); a take with nothing left reports the closed channel or waits, never a nil packet for an owed answer. NODE CLOSE: when a node is closed (Tracer.Close) after any call sequence that keeps the node discipline (C02), every request the node has read is answered exactly once by the time the close returns - with its real answer before, or with a dropped-packet error at the close - and the tracer keeps nothing (the real Tracer.Close is compared with the model on sequences closed with requests still waiting, in C02's correspondence run). PARTIAL: port and process teardown reduce to closes of readers and writers (covered per writer above); their composition into a workflow is not modelled; it is enumerated on the implementation (src -> A -> B -> sink, actions held open, the request at each point of its way, a pipelined second request and a request of another process on the same nodes, one or two of ten teardown actions): every requester returns within 1.5 s with its real answer or a dropped-packet error, no panic, unaffected requesters get their real answer.",
+        level_text="Coq theorems about one writer, its readers, their closes (with the delayed drop notices of Reader.Close) and the requester that takes responses from Writer.Receive() at arbitrary points: once the writer is closed every write it ever accepted has exactly one response queued, in write order (joined answer or dropped-packet error); whatever the interleaving, what the requester has taken is a prefix of that queue - nothing lost, duplicated or reordered, whether or not it was already waiting when the writer closed (the repaired defect); a take with nothing left reports the closed channel or waits, never a nil packet for an owed answer. NODE CLOSE: when a node is closed (Tracer.Close) after any call sequence that keeps the node discipline (C02), every request the node has read is answered exactly once by the time the close returns - with its real answer before, or with a dropped-packet error at the close - and the tracer keeps nothing (the real Tracer.Close is compared with the model on sequences closed with requests still waiting, in C02's correspondence run). WORKFLOW TEARDOWN (Node/Network.v): in an acyclic network of specification nodes (C02) with any number of requests in flight, closing every node at ANY point of ANY run - each closed node answering what it holds with the dropped-packet error - leaves nothing pending anywhere and has answered every request that ever arrived at any node exactly once; every answer ever given is the dropped-packet error, the node's own result, or the join of earlier answers to the derived packets. PARTIAL: port and process teardown reduce to closes of readers and writers (covered per writer above) and node closes; that the real teardown is that composition is enumerated on the implementation (src -> A -> B -> sink, actions held open, the request at each point of its way, a pipelined second request and a request of another process on the same nodes, one or two of ten teardown actions): every requester returns within 1.5 s with its real answer or a dropped-packet error, no panic, unaffected requesters get their real answer.",
         level_note="Partial as stated. 'Promptly' is a deadline on the implementation (1.5 s), not a theorem. When the part downstream of a node is closed before the node writes, the node's own result is the answer (as for an unconnected port, C02) and is accepted as well-formed. Trusted: Coq kernel + vm_compute; hand transcription of writer.go / reader.go (Packet/Writer.v) and of the pump; the verif gate in Writer.receive to deliver Reader.Close's drop notices one by one.",
         technique="Coq proof (ledger of C01 extended over writer close; lossless-FIFO refinement of the pump and the requester) + vm_compute correspondence of a real writer under teardown + crash-point enumeration oracle on a real workflow",
         quick_n=500, thorough_n=5000, shard=100, mismatch_is_failure=True,
